@@ -95,7 +95,7 @@ def canon_result(env, r):
 
 def run(ctx):
     rng = ctx.rng
-    nh = ctx.n(1200, 20000)
+    nh = ctx.n(1200, 80000)
     stats = {"calls": 0, "out_of_domain_calls": 0, "typeerror_both": 0, "absence_both": 0}
     for it in range(nh):
         kind = rng.choice(["BTree", "TreeSet", "Bucket", "Set", "BTree"])
